@@ -155,6 +155,8 @@ class TemplateMixin:
         now = self.pairs_now(run)  # type: ignore[attr-defined]
         run.oblige("K.pairs", z3.If(ok, now == z3.Concat(P0, prs), z3.PrefixOf(P0, now)), w)
         run.oblige("frame.snaps", self.snaps_same(run), w)  # type: ignore[attr-defined]
+        fr_ok, fr_why = self.frame_ok(run)  # type: ignore[attr-defined]
+        run.oblige("frame.no_shared_writes", fr_ok, note=fr_why)
         for i, g in enumerate(G(L0, okc, Lc, prs)[:-1]):
             run.oblige(f"G.{i}", g, w)
         p0, p1 = lget(L0, "pos"), lget(L1, "pos")
